@@ -177,6 +177,67 @@ def free_running(texts, rounds):
     return bad
 
 
+GEN_SNIPPET = r"""
+import sys
+sys.path.insert(0, %(repo)r)
+from pycparser import c_parser, c_generator, c_ast
+src = %(src)r
+ast = c_parser.CParser().parse(src, "g.c")
+
+class PrefixGen(c_generator.CGenerator):
+    def visit_ID(self, n):
+        return "my_" + n.name
+
+class UpperConst(c_generator.CGenerator):
+    def visit_Constant(self, n):
+        return n.value.upper()
+
+class Counting(c_ast.NodeVisitor):
+    def __init__(self):
+        self.n = 0
+    def visit_ID(self, n):
+        self.n += 1
+
+KINDS = {"plain": c_generator.CGenerator, "prefix": PrefixGen, "upper": UpperConst}
+for k in %(order)r:
+    if k == "count":
+        v = Counting(); v.visit(ast); print("count", v.n)
+    elif k == "bare":
+        c_ast.NodeVisitor().visit(ast); print("bare")
+    else:
+        print(k, repr(KINDS[k]().visit(ast)))
+"""
+
+
+def generator_orders(src):
+    """instances of different generator / visitor classes used one after the other in one process must
+    each produce what they produce alone (own process)"""
+    import subprocess, sys as _sys
+    from ..common import REPO
+
+    def runp(order):
+        code = GEN_SNIPPET % {"repo": REPO, "src": src, "order": order}
+        p = subprocess.run(["/venv/bin/python", "-c", code], stdout=subprocess.PIPE, stderr=subprocess.PIPE, timeout=120)
+        return p.returncode, p.stdout.decode("utf-8", "replace").split("\n")
+
+    alone = {}
+    for k in ("plain", "prefix", "upper", "count"):
+        rc, out = runp([k])
+        alone[k] = out[0] if rc == 0 and out else "FAILED"
+    bad = []
+    for order in (["plain", "prefix"], ["prefix", "plain"], ["upper", "prefix", "plain"], ["plain", "upper", "prefix", "plain"],
+                  ["bare", "count", "prefix"], ["count", "plain", "upper"], ["prefix", "prefix", "plain", "plain"]):
+        rc, out = runp(order)
+        if rc != 0:
+            bad.append((order, "exit status %d" % rc))
+            continue
+        for k, line in zip(order, out):
+            if k != "bare" and line != alone[k]:
+                bad.append((order, "%s produced %s, alone it produces %s" % (k, line[:120], alone[k][:120])))
+                break
+    return bad
+
+
 SHORT = ["struct a { int x : 3; int : 0; };", "struct b { const unsigned char : 7; char c; };", "typedef int T; T a;", "int T; int b = T * 2;", "T * x;", "typedef char T; T c", "# 7 \"h.h\"\nint z;", "void f(void) { { typedef int U;",
          "int q = @;", "enum E { T }; int v = T;"]
 
@@ -223,13 +284,22 @@ def run(ctx):
         n += 1
         if bad:
             ctx.violation("free-running threads: parser/generator %r produced a result different from its solo run" % bad, {"kind": "threads", "texts": texts})
-    ctx.rule("all schedules of length 6 (thorough 9) over two parsers at lexer-call granularity (the start of each parse - parser construction and the resets at the top of parse() - being a step of its own) for pairs of short clashing-name inputs (scheduling lexer injected through lexer=, strict hand-off), random schedules for 2-4 longer programs, and free-running threads (4 parsers + generators, switch interval 1e-6 s); every result compared with the solo run, re-dumped after all parsers have finished (a returned AST must not change afterwards) and checked to share no node object with another parser's result")
+    # generator / visitor instances of different classes, one after the other in one process
+    for src in ("int f(int a, int b) { return a + b * 0x1f; }", "struct S { int m; } s = { .m = 0xab }; int g(void) { return s.m ? s.m : 0xff; }"):
+        n += 1
+        for order, why in generator_orders(src):
+            ctx.violation("instances of different generator classes influence each other: order %r: %s" % (order, why), {"kind": "genorder", "src": src})
+    ctx.rule("all schedules of length 6 (thorough 9) over two parsers at lexer-call granularity (the start of each parse - parser construction and the resets at the top of parse() - being a step of its own) for pairs of short clashing-name inputs (scheduling lexer injected through lexer=, strict hand-off), random schedules for 2-4 longer programs, and free-running threads (4 parsers + generators, switch interval 1e-6 s); generator / visitor instances of different classes (CGenerator, two subclasses overriding visit_ID / visit_Constant, NodeVisitor subclasses) used in 7 orders in one process vs each alone in its own process; every result compared with the solo run, re-dumped after all parsers have finished (a returned AST must not change afterwards) and checked to share no node object with another parser's result")
     ctx.count(n, nontrivial_n=n)
     ctx.sample({"kind": "schedule", "texts": SHORT[:2], "schedule": [0, 1, 1, 0, 0, 1]})
 
 
 def replay(ctx, payload):
     i = payload["input"]
+    if i["kind"] == "genorder":
+        bad = generator_orders(i["src"])
+        print(bad)
+        return not bad
     if i["kind"] == "threads":
         return not free_running(i["texts"], 20)
     want = [result_key(py_parse_obj(t, "p%d.c" % k)) for k, t in enumerate(i["texts"])]
